@@ -490,6 +490,7 @@ class QH(object):
             return ret
         self.queue._pool_imap = pool_imap
         self.blocked = []       # relay attempts whose pool.spawn is waiting for a free slot
+        self.blocked_store = []  # store-pool spawns waiting for a free slot (bounded store pool scenarios)
         orig_spawn = self.queue._pool_spawn
 
         def pool_spawn(which, func, *a, **kw):
@@ -502,6 +503,16 @@ class QH(object):
                     return orig_spawn(which, func, *a, **kw)
                 finally:
                     h.blocked.remove(rec)
+                    h.activity += 1
+            if which == 'store' and pool is not None and pool.free_count() <= 0 and a:
+                # a caller parked in pool.spawn() for a store slot: the work for that id is under way
+                rec = ('store', h.ids.get(a[0], -1))
+                h.blocked_store.append(rec)
+                h.activity += 1
+                try:
+                    return orig_spawn(which, func, *a, **kw)
+                finally:
+                    h.blocked_store.remove(rec)
                     h.activity += 1
             return orig_spawn(which, func, *a, **kw)
         self.queue._pool_spawn = pool_spawn
@@ -1104,6 +1115,8 @@ def replay_run(ctx, case):
             unbounded_relay_pool_scenario(e)
         elif c['schedule'] == 'bounded-store-requeue':
             bounded_store_pool_requeue_scenario(e)
+        elif c['schedule'] == 'bounded-store-announce':
+            bounded_store_pool_announce_scenario(e)
         print('scenario %s on %s: %d oracle failures / mismatches' % (c['schedule'], c.get('backend', '-'), e.n))
         return 1 if e.n else 0
     run = Run(_r.Random(0), c['cfg'], script=c['schedule'])
@@ -1273,8 +1286,9 @@ def bounded_store_pool_requeue_scenario(ctx):
             h.release(h.pending('set_ts', 0)[0])
         for _ in range(3):
             h.act_advance(1)
-        a_read = bool(h.pending('get', mid)) or any(a['id'] == mid for a in h.attempts)
-        x_again = bool(h.pending('get', 0)) or len([a for a in h.attempts if a['id'] == 0]) > 1 or any(i == 0 for t, i in [(t, h.ids.get(r)) for t, r in h.queue.queued])
+        parked_ids = set(b[1] for b in h.blocked_store)
+        a_read = bool(h.pending('get', mid)) or any(a['id'] == mid for a in h.attempts) or mid in parked_ids
+        x_again = bool(h.pending('get', 0)) or len([a for a in h.attempts if a['id'] == 0]) > 1 or any(i == 0 for t, i in [(t, h.ids.get(r)) for t, r in h.queue.queued]) or 0 in parked_ids
         h.act_flush()
         # with a bounded store pool flush() itself waits for a store slot for each message it
         # dispatches (back-pressure, not the scheduler loop): let the storage and relay calls finish
@@ -1293,6 +1307,56 @@ def bounded_store_pool_requeue_scenario(ctx):
                      'store_pool=2, relay_pool=None: the re-queue of message 0 ran while the scheduler waited for a store slot to read message 1; '
                      'afterwards message 1 read/attempted: %r, message 0 scheduled again: %r, flush() calls/returns: %d/%d; pending gates: %r'
                      % (a_read, x_again, h.flush_calls, h.flush_returns, h.gates))
+    finally:
+        h.close()
+
+
+def bounded_store_pool_announce_scenario(ctx):
+    """store_pool=2 (one slot is _wait_store's), relay pool unbounded.  While the scheduler is
+    parked inside _check_ready (its _dispatch waits for a store slot), the storage announces another,
+    OLDER message: the entry is inserted in FRONT of the timetable entries being scanned.  Every stored
+    message the queue knows about must still be in flight or scheduled afterwards."""
+    h = QH(store_pool=2, relay_pool=None)
+    case = dict(schedule='bounded-store-announce', store_pool=2)
+    try:
+        if h.pending('load'):
+            h.release(h.pending('load')[0], [])
+        h.act_advance(5)
+        h.act_enqueue('s@example.com', [0])
+        h.release(h.pending('write')[0])
+        h.release(h.pending('relay', 0)[0], ('temp',))      # X fails: its _retry_later holds the free store slot
+        if not h.pending('incr', 0):
+            ctx.note('bounded-store announce scenario could not be set up (no incr gate)')
+            return
+        ids = {}
+        for name, ts, r in (('A', 2.0, 6), ('B', 1.0, 12)):
+            env = Envelope('s@example.com', ['r%d@example.com' % r])
+            rid = h.inner.write(env, ts)
+            ids[name] = (h.new_id(rid), rid, ts)
+            h.accepted[ids[name][0]] = (True, [r])
+        h.release(h.pending('wait')[0], [(ids['A'][2], ids['A'][1])])     # A announced, due: scheduler blocks dispatching it
+        parked = not h.pending('get', ids['A'][0])
+        h.release(h.pending('wait')[0], [(ids['B'][2], ids['B'][1])])     # B (older) announced while the scan is parked
+        h.release(h.pending('incr', 0)[0], 30)
+        if h.pending('set_ts', 0):
+            h.release(h.pending('set_ts', 0)[0])
+        for _ in range(3):
+            h.act_advance(1)
+        ctx.evaluated(('bounded-store-announce', 2))
+        ctx.count('bounded-store-announce-scenario')
+        if not parked:
+            ctx.note('bounded-store announce scenario: the scheduler was not parked (a store slot was free)')
+        q = h.queue
+        queued = set(h.ids.get(r) for t, r in q.queued)
+        busy = set(g.mid for g in h.gates if g.mid is not None) | set(b[1] for b in h.blocked) | set(b[1] for b in h.blocked_store)
+        for name in ('A', 'B'):
+            mid = ids[name][0]
+            attempted = any(a['id'] == mid for a in h.attempts)
+            if mid not in queued and mid not in busy and not attempted:
+                ctx.fail('c12:stored-message-forgotten', case,
+                         'store_pool=2, relay_pool=None: message %s (announced with timestamp %d while the scheduler was waiting for a store slot inside _check_ready) '
+                         'is stored but neither in flight nor in the timetable; timetable %r, active %r, pending gates %r'
+                         % (name, ids[name][2], sorted((int(t), h.ids.get(r)) for t, r in q.queued), sorted(h.ids.get(r) for r in q.active_ids), h.gates))
     finally:
         h.close()
 
